@@ -65,7 +65,7 @@ def regen(skip=()):
     if skip:
         cmd += ['--skip', ','.join(sorted(skip))]
     rc, out, err = run(cmd, timeout=300)
-    st = {'fatal': None, 'failed': {}, 'effects': (True, ''), 'api': (True, ''), 'coord': (True, '')}
+    st = {'fatal': None, 'failed': {}, 'effects': (True, ''), 'api': (True, ''), 'coord': (True, ''), 'ntv2d': (True, '')}
     if rc == 3:
         st['fatal'] = out.strip()
         return st
@@ -99,6 +99,13 @@ def regen(skip=()):
         st['coord'] = (False, out4.strip()[-600:])
     elif rc4 != 0:
         raise Infra(f'coord2lean.py crashed rc={rc4}: {err4[-2000:]}')
+    # transform.ntv2_2d (C17), regenerated from geodepy/transform.py
+    rc5, out5, err5 = run(['python3', os.path.join(VERIF, 'translator', 'ntv2d2lean.py'), '--repo', REPO, '--out',
+                           os.path.join(LEAN, 'GeodeVerif', 'GenF', 'Ntv2d.lean')], timeout=120)
+    if rc5 == 3:
+        st['ntv2d'] = (False, out5.strip()[-600:])
+    elif rc5 != 0:
+        raise Infra(f'ntv2d2lean.py crashed rc={rc5}: {err5[-2000:]}')
     return st
 
 
@@ -110,7 +117,7 @@ def base_fn(name):
 def gen_decl_to_skip(e):
     """a Lean error inside a generated file: the translated function it belongs to ('Module.fn'), or None"""
     m = re.search(r'Gen[FRQ]/(\w+)\.lean$', e['file'])
-    if not m or not e.get('decl') or m.group(1) in ('Dispatch', 'Effects', 'Api', 'Coord'):
+    if not m or not e.get('decl') or m.group(1) in ('Dispatch', 'Effects', 'Api', 'Coord', 'Ntv2d'):
         return None
     decl = e['decl'].replace('«', '').replace('»', '')
     try:
@@ -322,6 +329,9 @@ def check_property(pid, tier_):
                 # coord.py has left the translated subset: the theorems about its regenerated reading cannot be checked
                 broken.append({'kind': 'translator', 'what': 'coord2lean.py: ' + st['coord'][1]})
                 more_mods = [m for m in more_mods if m not in P.get('coord_modules', ())]
+            if P.get('needs_ntv2d') and not st['ntv2d'][0]:
+                broken.append({'kind': 'translator', 'what': 'ntv2d2lean.py: ' + st['ntv2d'][1]})
+                more_mods = [m for m in more_mods if m not in P.get('ntv2d_modules', ())]
             targets = ([module] if module else []) + P.get('extra_modules', []) + more_mods
             bok, btxt = lake_build(targets) if (targets and build_ok) else (build_ok, '')
             if not bok:
@@ -572,7 +582,7 @@ def count_theorems(module):
 def setup():
     with Lock():
         st = regen()
-        if st['fatal'] or st['failed'] or not st['effects'][0] or not st['api'][0] or not st['coord'][0]:
+        if st['fatal'] or st['failed'] or not st['effects'][0] or not st['api'][0] or not st['coord'][0] or not st['ntv2d'][0]:
             log('setup: translator failed: ' + json.dumps(st)[:2000])
             return 2
         import propdefs
